@@ -402,8 +402,16 @@ def run_status_ladder(case, r):
                         if res2.exc is not None:
                             continue
                         h1, h2 = res.info["convergence_history"], res2.info["convergence_history"]
-                        same_hist = len(h1["residual"]) == len(h2["residual"]) and np.allclose(h1["residual"], h2["residual"], rtol=1e-6, atol=1e-12 * max(1.0, scale)) and bool(res2.info["converged"]) == conv
-                        r.check(same_hist, f"C04/status/history-across-formulations/{form2[0]}", "the recorded residual history, the stopping iteration and the status do not depend on the formulation of the linear systems", full=[float(x) for x in h1["residual"]], reduced=[float(x) for x in h2["residual"]], cfg=tagc)
+                        # residuals that have reached rounding level (1e-9 of the first one) carry no information:
+                        # whether such a number is below a tolerance is luck, and so is the iteration the run stops
+                        # at afterwards.  Compared: the significant part of the history; stop and status only if
+                        # the run stopped while its residual was still significant
+                        s1 = [x for x in h1["residual"] if x > 1e-9 * h1["residual"][0]]
+                        s2 = [x for x in h2["residual"] if x > 1e-9 * h2["residual"][0]]
+                        same_hist = len(s1) == len(s2) and np.allclose(s1, s2, rtol=1e-6, atol=0.0)
+                        if len(s1) == len(h1["residual"]) and len(s2) == len(h2["residual"]):
+                            same_hist = same_hist and len(h1["residual"]) == len(h2["residual"]) and bool(res2.info["converged"]) == conv
+                        r.check(same_hist, f"C04/status/history-across-formulations/{form2[0]}", "the recorded residual history (down to rounding level), and the stopping iteration and status of runs that stop above it, do not depend on the formulation of the linear systems", full=[float(x) for x in h1["residual"]], reduced=[float(x) for x in h2["residual"]], cfg=tagc)
             else:
                 r.check(plain.get((crit, k)) == (res.distance, n_it, conv), f"C04/status/verbose-is-passive/{mname(method)}", "printing progress does not change the computation (distance, iteration count, status)", plain=plain.get((crit, k)), verbose=(res.distance, n_it, conv), cfg=tagc)
             r.nontriv((tagc["criterion"], k, scale, mk, method, verbose))
